@@ -1176,3 +1176,299 @@ func (f *fn) intersectionSeededOnFirst() bool {
 	})
 	return found && res
 }
+
+// ---- walkConfiguredIPRanges: every configured range clipped at BOTH ends, parts sorted ascending, walkIPRanges ----------------
+
+type walkConfFact struct{ clampsBoth, sorts, delegates bool }
+
+// cmpIdents: the condition compares two identifiers; returns them normalised as (smaller, larger, strict) for `a < b` /
+// `b > a` (strict) and `a <= b` / `b >= a`.
+func cmpIdents(e ast.Expr) (lo, hi string, strict, ok bool) {
+	b, isB := unparen(e).(*ast.BinaryExpr)
+	if !isB {
+		return "", "", false, false
+	}
+	x, y := identName(b.X), identName(b.Y)
+	if x == "" || y == "" {
+		return "", "", false, false
+	}
+	switch b.Op {
+	case token.LSS:
+		return x, y, true, true
+	case token.GTR:
+		return y, x, true, true
+	case token.LEQ:
+		return x, y, false, true
+	case token.GEQ:
+		return y, x, false, true
+	}
+	return "", "", false, false
+}
+
+func (f *fn) walkConfFacts() walkConfFact {
+	var wf walkConfFact
+	if len(f.fd.Type.Params.List) < 2 {
+		return wf
+	}
+	// outer loop over the requested ranges
+	var outer *ast.RangeStmt
+	for _, s := range f.stmts(f.fd.Body) {
+		if r, ok := s.(*ast.RangeStmt); ok {
+			outer = r
+			break
+		}
+	}
+	if outer == nil || identName(outer.Value) == "" {
+		return wf
+	}
+	r := identName(outer.Value)
+	ol := f.stmts(outer.Body)
+	// first / last of the requested range
+	bound := map[string]string{} // local -> "First" | "Last" of r
+	for _, s := range ol {
+		a, ok := s.(*ast.AssignStmt)
+		if !ok || len(a.Lhs) != len(a.Rhs) {
+			continue
+		}
+		for i, rhs := range a.Rhs {
+			t := strings.Join(strings.Fields(f.p.Src(rhs)), "")
+			for _, end := range []string{"First", "Last"} {
+				if strings.HasSuffix(t, "IPToInt("+r+"."+end+")") {
+					bound[identName(a.Lhs[i])] = end
+				}
+			}
+		}
+	}
+	// the innermost collection loop (over the ranges of a pool of recv.FloatingIPs)
+	var inner *ast.RangeStmt
+	for _, s := range ol {
+		p, ok := s.(*ast.RangeStmt)
+		if !ok || !isCacheField(f.p, p.X, f.recv) {
+			continue
+		}
+		for _, t := range f.stmts(p.Body) {
+			if q, ok := t.(*ast.RangeStmt); ok {
+				inner = q
+			}
+		}
+	}
+	if inner == nil || identName(inner.Value) == "" {
+		return wf
+	}
+	c := identName(inner.Value)
+	il := f.stmts(inner.Body)
+	ends := map[string]string{} // local -> "First" | "Last" of the configured range
+	for _, s := range il {
+		a, ok := s.(*ast.AssignStmt)
+		if !ok || len(a.Lhs) != len(a.Rhs) {
+			continue
+		}
+		for i, rhs := range a.Rhs {
+			t := strings.Join(strings.Fields(f.p.Src(rhs)), "")
+			for _, end := range []string{"First", "Last"} {
+				if strings.HasSuffix(t, "IPToInt("+c+"."+end+")") {
+					ends[identName(a.Lhs[i])] = end
+				}
+			}
+		}
+	}
+	clampLo, clampHi, appended := false, false, false
+	parts := ""
+	assignsTo := func(b *ast.BlockStmt, lhs, rhs string) bool {
+		l := f.stmts(b)
+		if len(l) != 1 {
+			return false
+		}
+		a, ok := l[0].(*ast.AssignStmt)
+		return ok && a.Tok == token.ASSIGN && len(a.Lhs) == 1 && len(a.Rhs) == 1 && identName(a.Lhs[0]) == lhs && identName(a.Rhs[0]) == rhs
+	}
+	appendOf := func(s ast.Stmt) (string, bool) {
+		a, ok := s.(*ast.AssignStmt)
+		if !ok || len(a.Lhs) != 1 || len(a.Rhs) != 1 {
+			return "", false
+		}
+		call, ok := a.Rhs[0].(*ast.CallExpr)
+		if !ok || identName(call.Fun) != "append" || len(call.Args) != 2 || identName(call.Args[0]) != identName(a.Lhs[0]) {
+			return "", false
+		}
+		t := strings.Join(strings.Fields(f.p.Src(call.Args[1])), "")
+		usesLo, usesHi := false, false
+		for v, e := range ends {
+			if e == "First" && strings.Contains(t, "IntToIP("+v+")") {
+				usesLo = true
+			}
+			if e == "Last" && strings.Contains(t, "IntToIP("+v+")") {
+				usesHi = true
+			}
+		}
+		return identName(a.Lhs[0]), usesLo && usesHi
+	}
+	guardedNonEmpty := false
+	for k, s := range il {
+		x, ok := s.(*ast.IfStmt)
+		if ok && x.Else == nil {
+			lo, hi, strict, isCmp := cmpIdents(x.Cond)
+			if isCmp && strict {
+				// if lo < first { lo = first }   (lo: First of the configured range, first: First of the request)
+				if ends[lo] == "First" && bound[hi] == "First" && assignsTo(x.Body, lo, hi) {
+					clampLo = true
+				}
+				// if hi > last { hi = last }  ≡  last < hi
+				if bound[lo] == "Last" && ends[hi] == "Last" && assignsTo(x.Body, hi, lo) {
+					clampHi = true
+				}
+				// guard: if hi < lo { continue }
+				if ends[lo] == "Last" && ends[hi] == "First" {
+					b := f.stmts(x.Body)
+					if len(b) == 1 {
+						if br, ok := b[0].(*ast.BranchStmt); ok && br.Tok == token.CONTINUE {
+							for _, u := range il[k+1:] {
+								if p, ok2 := appendOf(u); ok2 {
+									parts, appended, guardedNonEmpty = p, true, true
+								}
+							}
+						}
+					}
+				}
+			}
+			if isCmp && !strict && ends[lo] == "First" && ends[hi] == "Last" { // if lo <= hi { parts = append(…) }
+				for _, u := range f.stmts(x.Body) {
+					if p, ok2 := appendOf(u); ok2 {
+						parts, appended, guardedNonEmpty = p, true, true
+					}
+				}
+			}
+		}
+		// lo = max(lo, first) / hi = min(hi, last)
+		if a, ok := s.(*ast.AssignStmt); ok && a.Tok == token.ASSIGN && len(a.Lhs) == 1 && len(a.Rhs) == 1 {
+			if call, ok := a.Rhs[0].(*ast.CallExpr); ok && len(call.Args) == 2 {
+				v := identName(a.Lhs[0])
+				a0, a1 := identName(call.Args[0]), identName(call.Args[1])
+				other := a1
+				if a1 == v {
+					other = a0
+				}
+				if (a0 == v || a1 == v) && identName(call.Fun) == "max" && ends[v] == "First" && bound[other] == "First" {
+					clampLo = true
+				}
+				if (a0 == v || a1 == v) && identName(call.Fun) == "min" && ends[v] == "Last" && bound[other] == "Last" {
+					clampHi = true
+				}
+			}
+		}
+	}
+	wf.clampsBoth = clampLo && clampHi && appended && guardedNonEmpty
+	if parts == "" {
+		// the variant appends the configured range itself
+		for _, s := range il {
+			if a, ok := s.(*ast.AssignStmt); ok && len(a.Rhs) == 1 {
+				if call, ok := a.Rhs[0].(*ast.CallExpr); ok && identName(call.Fun) == "append" && len(call.Args) == 2 {
+					parts = identName(call.Args[0])
+				}
+			}
+		}
+	}
+	// after the collection: sort.Slice(parts, first ascending), then walkIPRanges(parts, forwarding callback)
+	fparam := ""
+	last := f.fd.Type.Params.List[len(f.fd.Type.Params.List)-1]
+	if len(last.Names) == 1 {
+		fparam = last.Names[0].Name
+	}
+	sortIdx, walkIdx := -1, -1
+	stoppedVar := ""
+	for k, s := range ol {
+		e, ok := s.(*ast.ExprStmt)
+		if !ok {
+			continue
+		}
+		call, ok := e.X.(*ast.CallExpr)
+		if !ok {
+			continue
+		}
+		fun := f.p.Src(call.Fun)
+		if (fun == "sort.Slice" || fun == "sort.SliceStable") && len(call.Args) == 2 && identName(call.Args[0]) == parts && parts != "" {
+			if lit, ok := call.Args[1].(*ast.FuncLit); ok && len(lit.Type.Params.List) >= 1 {
+				var names []string
+				for _, fl := range lit.Type.Params.List {
+					for _, n := range fl.Names {
+						names = append(names, n.Name)
+					}
+				}
+				body := f.stmts(lit.Body)
+				if len(names) == 2 && len(body) == 1 {
+					if ret, ok := body[0].(*ast.ReturnStmt); ok && len(ret.Results) == 1 {
+						if b, ok := unparen(ret.Results[0]).(*ast.BinaryExpr); ok {
+							l := strings.Join(strings.Fields(f.p.Src(b.X)), "")
+							rr := strings.Join(strings.Fields(f.p.Src(b.Y)), "")
+							key := func(i string) string { return "IPToInt(" + parts + "[" + i + "].First)" }
+							asc := (b.Op == token.LSS && strings.HasSuffix(l, key(names[0])) && strings.HasSuffix(rr, key(names[1]))) ||
+								(b.Op == token.GTR && strings.HasSuffix(l, key(names[1])) && strings.HasSuffix(rr, key(names[0])))
+							if asc {
+								sortIdx = k
+							}
+						}
+					}
+				}
+			}
+		}
+		if fun == "walkIPRanges" && len(call.Args) == 2 && identName(call.Args[0]) == parts && parts != "" {
+			if lit, ok := call.Args[1].(*ast.FuncLit); ok {
+				body := f.stmts(lit.Body)
+				t := strings.Join(strings.Fields(f.p.Src(lit.Body)), "")
+				forwards := false
+				if len(body) == 1 && strings.Contains(t, "return"+fparam+"(") {
+					forwards = true // return f(ip)
+				}
+				if len(body) == 2 {
+					if a, ok := body[0].(*ast.AssignStmt); ok && len(a.Lhs) == 1 && len(a.Rhs) == 1 {
+						if c2, ok := a.Rhs[0].(*ast.CallExpr); ok && identName(c2.Fun) == fparam {
+							if ret, ok := body[1].(*ast.ReturnStmt); ok && len(ret.Results) == 1 && identName(ret.Results[0]) == identName(a.Lhs[0]) {
+								forwards, stoppedVar = true, identName(a.Lhs[0])
+							}
+						}
+					}
+				}
+				if forwards {
+					walkIdx = k
+				}
+			}
+		}
+	}
+	wf.sorts = sortIdx >= 0 && (walkIdx < 0 || sortIdx < walkIdx)
+	// stop the outer loop when the callback stopped
+	stops := stoppedVar == ""
+	if walkIdx >= 0 && stoppedVar != "" {
+		for _, s := range ol[walkIdx+1:] {
+			if x, ok := s.(*ast.IfStmt); ok && identName(x.Cond) == stoppedVar && f.leaves(x.Body) {
+				stops = true
+			}
+		}
+	}
+	wf.delegates = walkIdx >= 0 && stops && stoppedVar != ""
+	return wf
+}
+
+// ---- listFloatingIPs asks the API server (not an informer cache) --------------------------------------------------------------
+
+func (f *fn) listsApiserver() bool {
+	verbs, _, _ := f.effects(f.fd.Body)
+	if len(verbs) != 1 || !verbs["list"] {
+		return false
+	}
+	t := f.p.Src(f.fd.Body)
+	for _, bad := range []string{"Lister()", "informer", "Informer()", "GetIndexer", "GetStore"} {
+		if strings.Contains(t, bad) {
+			return false
+		}
+	}
+	n := 0
+	ast.Inspect(f.fd.Body, func(x ast.Node) bool {
+		if c, ok := x.(*ast.CallExpr); ok {
+			if sel, ok := c.Fun.(*ast.SelectorExpr); ok && sel.Sel.Name == "List" {
+				n++
+			}
+		}
+		return true
+	})
+	return n == 1
+}
